@@ -208,6 +208,8 @@ def run_frontend(fe, tab, config_dict):
             ds = xr.Dataset({k: ("obs", a) for k, a in cols.items()} | {"time": ("obs", times)})
         else:
             ds = xr.Dataset({k: ("time", a) for k, a in cols.items()}, coords={"time": times})
+            if variant == "axcoords":   # depth / latitude / longitude as coordinates of the measured variables (CF style)
+                ds = ds.set_coords([k for k in ("z", "lat", "lon") if k in cols])
         if variant == "file":
             # through a NetCDF-3 file on disk (scipy engine), times stored as seconds since the epoch
             import os
